@@ -21,6 +21,9 @@ def default_of(sort):
         return z3.RealVal(0)
     if sort == Val:
         return Val.VNone
+    if sort.kind() == z3.Z3_DATATYPE_SORT and sort.num_constructors() == 1:  # tuple sort
+        c = sort.constructor(0)
+        return c(*[default_of(c.domain(i)) for i in range(c.arity())])
     raise TypeError(sort)
 
 
